@@ -66,6 +66,15 @@ pub fn ver_frame(mode: SizeMode, reqi: u8, insimver: u8, rng: &mut Rng) -> Vec<u
     let versions: [&[u8]; 4] = [b"0.7A", b"0.6V", b"0.7E3", b"0.5Z28"];
     let v = rng.pick(&versions);
     let mut vb = v.to_vec();
+    if rng.chance(1, 6) {
+        // free-form version text: digits, dots, letters, multi-byte characters
+        vb.clear();
+        for _ in 0..rng.small(5) {
+            let a: &[u8] = *rng.pick(&TEXT_ATOMS[15..]);
+            vb.extend_from_slice(a);
+        }
+        vb.truncate(8);
+    }
     vb.resize(8, 0);
     f.extend_from_slice(&vb);
     let products: [&[u8]; 4] = [b"S3", b"DEMO", b"S2", b"S1"];
@@ -241,8 +250,31 @@ fn rand_len(rng: &mut Rng, mode: SizeMode, cap: usize) -> usize {
     }
 }
 
+/// byte strings that text / version fields treat specially: escapes, codepage markers,
+/// multi-byte UTF-8, version syntax
+pub const TEXT_ATOMS: [&[u8]; 24] = [
+    b"^", b"^^", b"^J", b"^L", b"^G", b"^C", b"^E", b"^T", b"^B", b"^H", b"^S", b"^K", b"^8", b"^0", b"^v",
+    b"a", b"1", b"0.7", b".", b"\xC3\xA9", b"\xE2\x82\xAC", b"\xF0\x9F\x98\x80", b"\x80", b"\xFF",
+];
+
 fn fill_body(rng: &mut Rng, n: usize) -> Vec<u8> {
-    match rng.below(4) {
+    match rng.below(5) {
+        4 => {
+            // text-like: atoms back to back, NUL runs in between
+            let mut v = Vec::with_capacity(n + 4);
+            while v.len() < n {
+                if rng.chance(1, 6) {
+                    for _ in 0..rng.small(6) {
+                        v.push(0);
+                    }
+                } else {
+                    let a: &[u8] = *rng.pick(&TEXT_ATOMS[..]);
+                    v.extend_from_slice(a);
+                }
+            }
+            v.truncate(n);
+            v
+        },
         0 => vec![0u8; n],
         1 => (0..n).map(|_| rng.below(4) as u8).collect(),
         2 => {
